@@ -389,6 +389,15 @@ SPEC = {
                   "was laid out or checked before it and acceptance does not depend on the order of the declarations "
                   "(layout_is_context_free, check_layout_order_free); the correspondence run exercises exactly that on the real "
                   "compiler with type tables that SHARE struct / enum / typedef definitions between several checked types. "
+                  "Globals and functions the collection loops pass over (other resource kinds, variables, non-templated "
+                  "intrinsics, user functions) provably never influence what is collected or the verdict "
+                  "(unmatched_sites_ignored); the run places such decoys (float3 everywhere) around the checked sites. Since wave 11 "
+                  "the generated programs also vary compile()'s other options (source_info, defines, pipeline_name among two "
+                  "pipelines, support_buffer_address), the declaration forms (several declarators, namespaces reopened, static / "
+                  "extern / local buffers, prototypes with default arguments, bodies after main, struct-template methods, method "
+                  "templates, one template instantiated twice, buffers inside structs) and the spelling of members (typedef and "
+                  "const-typedef member types, several declarators per declaration, two bases, typedef chains and constant "
+                  "expressions for array dimensions), and reach 14 checked types / 24 sites / 24 members per struct. "
                   "The model is compared with the real compile() on "
                   "generated whole programs and the property's own oracle (independent Rust calculators, themselves compared with "
                   "the Lean reference on every run) judges the real verdicts and diagnostics.",
@@ -447,7 +456,8 @@ SPEC = {
         "diagnostics) - re-run on /repo's working tree every time; any other text is a broken obligation",
         "Model/Layout.lean + Model/LayoutCollect.lean: interpreter of the op programs, the recursion skeletons and the two "
         "collection loops; Driver/C19.lean::moduleOf: how the type checker turns the generated programs into globals and "
-        "intrinsic instantiations (order, type ids; a typedef is the same type id, a const-qualified type has its own, one "
+        "intrinsic instantiations (order in three phases: functions before main, main's statements and what they "
+        "instantiate, bodies after main; one or several globals per declaration; type ids; a typedef is the same type id, a const-qualified type has its own, one "
         "for all its spellings; a reference $k is replaced by the structure it names) - all tied to the code by the "
         "correspondence run only",
         "Spec/Layout.lean, Spec/LayoutFull.lean and the Rust reference calculators in harness/src/c19.rs: our reading of HLSL "
